@@ -165,7 +165,8 @@ def run(prog, chk):
                 if rt != other + ".data":
                     continue
                 atoms = fin.dominating_atoms(f, w.pos)
-                ok = any(a[0] != "case" and a[1] and q.no_casts(C.norm(f, a[0], {}, defs)) == other + ".data->ref" for a in atoms)
+                nz = [fin.nonzero_operand(f, a[0], a[1]) for a in atoms if a[0] != "case"]       # `ref`, `ref != 0`, `!(ref == 0)` ...
+                ok = any(x is not None and q.no_casts(C.norm(f, x, {}, defs)) == other + ".data->ref" for x in nz)
                 if ok:
                     chk.ok("C06.e", f, "shares the source block only when it is counted", f.where(w.node) if w.node is not None else "", "true edge of other.data->ref")
                 else:
